@@ -37,3 +37,33 @@ Definition iana_anchors : list (nat * string) := [
   (27, "Rdp"); (33, "Dccp"); (41, "Ipv6"); (46, "Rsvp"); (47, "Gre"); (50, "Esp"); (51, "Ah");
   (58, "Ipv6Icmp"); (88, "Eigrp"); (89, "Ospfigp"); (103, "Pim"); (112, "Vrrp"); (115, "L2Tp");
   (132, "Sctp"); (136, "Udplite"); (143, "Ethernet") ].
+
+(* IANA Assigned Internet Protocol Numbers 0..144 (keywords in the crate's spelling), the full
+   list: the name of every protocol number, whichever code path produces it (From<u8> for V5/V7,
+   the enum discriminants for the V9 PROTOCOL field). *)
+Definition iana_protocols : list (nat * string) := [
+  (0, "Hopopt"); (1, "Icmp"); (2, "Igmp"); (3, "Ggp"); (4, "Ipv4"); (5, "St");
+  (6, "Tcp"); (7, "Cbt"); (8, "Egp"); (9, "Igp"); (10, "Bbcrccmon"); (11, "Nvpii");
+  (12, "Pup"); (13, "Argus"); (14, "Emcon"); (15, "Xnet"); (16, "Chaos"); (17, "Udp");
+  (18, "Mux"); (19, "Dcnmeas"); (20, "Hmp"); (21, "Prm"); (22, "Xnxidp"); (23, "Trunk1");
+  (24, "Trunk2"); (25, "Leaf1"); (26, "Leaf2"); (27, "Rdp"); (28, "Irtp"); (29, "Isotp4");
+  (30, "Netblt"); (31, "Mfensp"); (32, "Meritinp"); (33, "Dccp"); (34, "Threepc"); (35, "Idpr");
+  (36, "Xtp"); (37, "Ddp"); (38, "Idprcmtp"); (39, "Tppp"); (40, "Il"); (41, "Ipv6");
+  (42, "Sdrp"); (43, "Ipv6Route"); (44, "Ipv6Frag"); (45, "Idrp"); (46, "Rsvp"); (47, "Gre");
+  (48, "Dsr"); (49, "Bna"); (50, "Esp"); (51, "Ah"); (52, "Inlsp"); (53, "Swipe");
+  (54, "Narp"); (55, "Mobile"); (56, "Tlsp"); (57, "Skip"); (58, "Ipv6Icmp"); (59, "Ipv6Nonxt");
+  (60, "Ipv6Opts"); (61, "Anydistributedprotocol"); (62, "Cftp"); (63, "Anylocalnetwork"); (64, "Satexpak"); (65, "Kryptolan");
+  (66, "Rvd"); (67, "Ippc"); (68, "Anydistributedfilesystem"); (69, "Satmon"); (70, "Visa"); (71, "Ipcv");
+  (72, "Cpnx"); (73, "Cphb"); (74, "Wsn"); (75, "Pvp"); (76, "Brsatmon"); (77, "Sunnd");
+  (78, "Wbmon"); (79, "Wbexpak"); (80, "Isoip"); (81, "Vmtp"); (82, "Securevmtp"); (83, "Vines");
+  (84, "Iptm"); (85, "Nsfnetigp"); (86, "Dgp"); (87, "Tcf"); (88, "Eigrp"); (89, "Ospfigp");
+  (90, "Spriterpc"); (91, "Larp"); (92, "Mtp"); (93, "Ax25"); (94, "Ipip"); (95, "Micp");
+  (96, "Sccsp"); (97, "Etherip"); (98, "Encap"); (99, "Anyprivateencryptionscheme"); (100, "Gmtp"); (101, "Ifmp");
+  (102, "Pnni"); (103, "Pim"); (104, "Aris"); (105, "Scps"); (106, "Qnx"); (107, "An");
+  (108, "Ipcomp"); (109, "Snp"); (110, "Compaqpeer"); (111, "Ipxinip"); (112, "Vrrp"); (113, "Pgm");
+  (114, "Any0Hopprotocol"); (115, "L2Tp"); (116, "Ddx"); (117, "Iatp"); (118, "Stp"); (119, "Srp");
+  (120, "Uti"); (121, "Smp"); (122, "Sm"); (123, "Ptp"); (124, "Isisoveripv4"); (125, "Fire");
+  (126, "Crtp"); (127, "Crudp"); (128, "Sscopmce"); (129, "Iplt"); (130, "Sps"); (131, "Pipe");
+  (132, "Sctp"); (133, "Fc"); (134, "Rsvpe2Eignore"); (135, "Mobilityheader"); (136, "Udplite"); (137, "Mplsinip");
+  (138, "Manet"); (139, "Hip"); (140, "Shim6"); (141, "Wesp"); (142, "Rohc"); (143, "Ethernet");
+  (144, "Aggfrag") ].
